@@ -412,7 +412,10 @@ func c01(r *Report) {
 	}
 	g := G(handle)
 
-	r.Guard("C01.R1", "through a shaped listener too: a shaped read or write never comes back empty-handed without an error", func() { shapedCallbacksDoIORule(r) })
+	r.Guard("C01.R1", "through a shaped listener too: a shaped read or write never comes back empty-handed without an error", func() {
+		shapedCallbacksDoIORule(r)
+		reconfigClosesNoBucketRule(r)
+	})
 
 	r.Guard("C01.R1", "exactly one response is written and then flushed on every normal exit of the exchange function", func() {
 		responseWrittenRule(r, handle)
@@ -519,6 +522,19 @@ func c01(r *Report) {
 
 	r.Guard("C01.R3", "either side asking to close, or shutdown, marks the response close and ends the connection", func() {
 		newResponseCopiesRule(r)
+		// closing a client connection delivers what was written: the core never sets SO_LINGER (a
+		// zero linger - which a sub-second timeout truncates to - turns close into a reset that
+		// discards the queued tail of the response)
+		nl := 0
+		for _, f := range w.Funcs("") {
+			for _, c := range calls(f, "(*net.TCPConn).SetLinger") {
+				nl++
+				r.Fail("callgraph", fnName(f)+": "+site(f, c)+" sets SO_LINGER on a connection", "with a linger of zero (a timeout below one second truncates to it) closing the connection sends a reset and discards queued bytes: a large response to a Connection: close request is cut off", nil, c.Pos())
+			}
+		}
+		if nl == 0 {
+			r.Hold("callgraph", "the proxy core never sets SO_LINGER", "no SetLinger call")
+		}
 		closeDecision(r, handle, "")
 		// the loop leaves on errClose: isCloseable(errClose) and the loop test
 		isc := r.Use("", "isCloseable")
